@@ -57,3 +57,17 @@ pub(crate) fn verif_memchr3_stub(n1: u8, n2: u8, n3: u8, haystack: &[u8]) -> Opt
     }
     None
 }
+
+// core::str::from_utf8's contract for ASCII input (every byte < 0x80 is valid UTF-8 and the str
+// has the same bytes); fails the obligation - closed - if it is ever handed anything else.  The
+// real validator's word-at-a-time fast path branches on pointer alignment, which costs CBMC
+// ~13 min per call site (measured).
+#[allow(dead_code)]
+pub(crate) fn verif_from_utf8_ascii_stub(v: &[u8]) -> Result<&str, core::str::Utf8Error> {
+    let mut i = 0;
+    while i < v.len() {
+        assert!(v[i] < 0x80, "from_utf8 contract stub: non-ASCII input is outside its contract");
+        i += 1;
+    }
+    Ok(unsafe { core::str::from_utf8_unchecked(v) })
+}
